@@ -33,6 +33,28 @@ Theorem c11_follow_up : forall A (p : prog A) w w', run T_reg BMA400_soft_reset 
   sem p Config_default (power_on (regs (wchip w)) (fifo (wchip w)) (st_pos (wchip w)) (st_neg (wchip w))) [].
 Proof. intros A p w w' H. destruct (c11_reset_state w w' H) as [E1 [E2 _]]. rewrite E1, E2. reflexivity. Qed.
 
+(* a reset that does NOT return Ok: either the command write failed and nothing changed, or the command was
+   acknowledged (the chip did reset) and only the event read failed - then the shadow already holds the defaults.
+   In both cases belief and device stay in step (C16), so a failed reset can simply be repeated. *)
+Theorem c11_failed_reset : forall w e w', run T_reg BMA400_soft_reset w = Failed e w' ->
+  (shadow w' = shadow w /\ wchip w' = wchip w)
+  \/ (shadow w' = Config_default
+      /\ wchip w' = power_on (regs (wchip w)) (fifo (wchip w)) (st_pos (wchip w)) (st_neg (wchip w))).
+Proof.
+  intros w e w'. unfold BMA400_soft_reset. cbn [bind write_register put_shadow read_register run].
+  cbn [t_write t_read T_reg]. unfold reg_write, reg_read, attempt.
+  destruct (faulty (hst w)) eqn:F1.
+  - cbn [fst snd]. intro H. injection H as _ H. subst w'. left. unfold wchip, log_ev. cbn [shadow hst journal]. autorewrite with hproj. auto.
+  - cbn [log_ev hst]. autorewrite with hproj.
+    match goal with |- context [faulty ?h] => destruct (faulty h) eqn:F2 end.
+    + intro H. injection H as _ H. subst w'. right. unfold wchip, log_ev. cbn [shadow hst journal]. autorewrite with hproj. auto.
+    + autorewrite with hproj.
+      change (Command_to_byte Command_SoftReset) with 182. change Command_ADDR with 126. change Event_ADDR with 13.
+      change (len (repeatN 0 1)) with 1.
+      assert (Ec : chip_read 13 1 (chip_write 126 182 (hchip (hst w))) = ([reg_out (chip_write 126 182 (hchip (hst w))) 13], chip_write 126 182 (hchip (hst w)))) by reflexivity.
+      rewrite Ec. discriminate.
+Qed.
+
 (* and the configuration registers of that chip are the datasheet reset values *)
 Theorem c11_registers_at_reset : forall ro q pos neg a, 25 <= a < 128 -> regs (power_on ro q pos neg) a = reset_val a.
 Proof.
